@@ -13,6 +13,7 @@ class PatchList:
 
     def __init__(self) -> None:
         self.patches: OrderedDict[str, Patch] = OrderedDict()
+        self.modified: Set[str] = set()  # names of patches changed by modify()
         self.default: Dict[str, str] = {}
         self.merged: List[List[str]] = []  # data for the mergePatchPairs entry
 
@@ -44,13 +45,20 @@ class PatchList:
         if settings is not None:
             patch.settings = settings
 
+        self.modified.add(name)
+
     def merge(self, master: str, slave: str) -> None:
         """Adds an entry in mergePatchPairs list in blockMeshDict"""
         self.merged.append([master, slave])
 
     def clear(self) -> None:
-        """Removes collected patches but leaves settings intact"""
-        self.patches.clear()
+        """Removes collected patches but leaves settings intact;
+        patches changed by modify() keep their type and settings and only lose their sides"""
+        for name in list(self.patches.keys()):
+            if name in self.modified:
+                self.patches[name].sides = []
+            else:
+                del self.patches[name]
 
     @property
     def description(self) -> str:
